@@ -185,4 +185,12 @@ def c17_d(ctx: Ctx):
     return out
 
 
-RULES = [c17_a, c17_b, c17_c, c17_d]
+@rule("C17-e")
+def c17_e(ctx: Ctx):
+    """None-sentinels of the view code: job_ids=None means all jobs; branch=None marks the root call of the dead-branch search (an empty branch list is a real value)."""
+    from .lints import sentinel_discipline
+    return sentinel_discipline(ctx, "C17-e", [("signac.linked_view:create_linked_view", "job_ids", "an empty selection is a selection: treated as 'not given' the view is built for the whole project"),
+     ("signac.linked_view:_find_dead_branches", "branch", "children of the root are visited with an empty branch list; treated as 'root call' their own node is not appended and every obsolete path loses its first component")])
+
+
+RULES = [c17_a, c17_b, c17_c, c17_d, c17_e]
